@@ -451,3 +451,24 @@ package st
 //@   ensures true
 //@ func (m *mon) staleBad() (r bool)
 //@   ensures [same] r
+
+// the counting loop is annotated in terms of the hidden range counter, the range loop in terms of the counter i
+//@ func fillCounting(a []int)
+//@   modifies a[*]
+//@   ensures [ones] forall k mathint :: {a[k]} 0 <= k && k < len(a) ==> a[k] == 1
+//@   loop 1 invariant [r] -1 <= rangeindex && rangeindex < len(a) && (forall k mathint :: {a[k]} 0 <= k && k <= rangeindex ==> a[k] == 1)
+
+//@ func fillRange(a []int)
+//@   modifies a[*]
+//@   ensures [ones] forall k mathint :: {a[k]} 0 <= k && k < len(a) ==> a[k] == 1
+//@   loop 1 invariant [r] 0 <= i && i <= len(a) && (forall k mathint :: {a[k]} 0 <= k && k < i ==> a[k] == 1)
+
+//@ func fillRangeBad(a []int)
+//@   modifies a[*]
+//@   ensures [ones] forall k mathint :: {a[k]} 0 <= k && k < len(a) ==> a[k] == 1
+//@   loop 1 invariant [r] 0 <= i && i <= len(a) && (forall k mathint :: {a[k]} 0 <= k && k < i ==> a[k] == 1)
+
+//@ func fillCountingBad(a []int)
+//@   modifies a[*]
+//@   ensures [ones] forall k mathint :: {a[k]} 0 <= k && k < len(a) ==> a[k] == 1
+//@   loop 1 invariant [r] -1 <= rangeindex && rangeindex < len(a) && (forall k mathint :: {a[k]} 0 <= k && k <= rangeindex ==> a[k] == 1)
